@@ -31,7 +31,7 @@ MCSeeds == IF Seeded = 0 THEN {} ELSE
    {S2("b1", 2, "b2", 0, 0), S2("b1", 2, "b2", 0, 3), S2("b1", 1, "b2", -1, 0), S2("b1", 2, "b2", -2, 0),
     S2("b3", 1, "b1", -1, 0), S2("b3", -1, "b1", 0, 0), S2("b1", 1, "b2", 0, 3)}
 \* foreign units (serialised by another process): a few shapes (quick) or every small one/two-factor unit
-MCQKinds == IF EnvInt("VERIF_KINDS", 4) = 2 THEN {0, 1} ELSE {0, 1, 2, 3}
+MCQKinds == IF EnvInt("VERIF_KINDS", 4) = 1 THEN {0} ELSE IF EnvInt("VERIF_KINDS", 4) = 2 THEN {0, 1} ELSE {0, 1, 2, 3}
 MCForeignShapes ==
    IF EnvInt("VERIF_FOREIGN", 1) = 1
    THEN {S2("b1", 1, "b2", -1, 0), S2("b1", 1, "b3", -1, 0), S2("b3", 2, "b1", 0, 0), S2("b1", 2, "b2", 0, 3),
@@ -43,6 +43,7 @@ MCOps == LET s == EnvSet("VERIF_OPS") IN
          IF s = "codec" THEN {"pmul", "dump", "load"}
          ELSE IF s = "foreign" THEN {"loadf", "mul", "div"}
          ELSE IF s = "foreignq" THEN {"loadf"}
+         ELSE IF s = "defdim" THEN {"dump", "load", "defdim", "touch"}
          ELSE IF s = "roots" THEN {"div", "pow", "root"}
          ELSE IF s = "ratio" THEN {"pow", "as_ratio"}
          ELSE IF s = "touch" THEN {"mul", "div", "pow", "root", "as_ratio", "render", "touch"}
